@@ -108,3 +108,34 @@ package calcium
 //@     invariant forall a, b :: 0 <= a && a < b && b < len(cs) ==> cs[a].ID < cs[b].ID
 //@     invariant forall a :: 0 <= a && a < len(cs) ==> cs[a] != nil
 //@     invariant forall k string :: k in locks ==> exists a :: 0 <= a && a <= rangeindex && cs[a].ID == k
+
+//@ # ---------- the call site of the deploy strategies (C01, C02) ----------
+//@ # assumed contracts of the resource manager and the store (interface methods; trusted)
+//@ func (Manager) GetNodesDeployCapacity
+//@   ensures err == nil ==> result0 != nil && allocated(result0) && forall n string :: n in result0 ==> result0[n] != nil && allocated(result0[n])
+//@ func (Store) GetDeployStatus
+//@   ensures err == nil ==> (result0 == nil || allocated(result0))
+
+//@ # the strategies are handed exactly the offered nodes, each once, with its reported capacity, usage and rate and
+//@ # the number of instances already deployed there; the requested count, the node limit and the manager's total
+//@ func (*Calcium) doGetDeployStrategy
+//@   requires c != nil && opts != nil && allocated(opts) && opts.Entrypoint != nil
+//@   assert[C01.call-site,C02] before call Deploy#1: arg1 == opts.DeployStrategy && arg2 == opts.Count && arg3 == opts.NodesLimit && arg5 == total
+//@        && arg2 == opts.Count
+//@   assert[C01.call-infos,C02] before call Deploy#1: (forall k :: 0 <= k && k < len(strategyInfos) ==> strategyInfos[k].Nodename in nodeResourceInfoMap
+//@             && strategyInfos[k].Capacity == nodeResourceInfoMap[strategyInfos[k].Nodename].Capacity
+//@             && strategyInfos[k].Usage == nodeResourceInfoMap[strategyInfos[k].Nodename].Usage
+//@             && strategyInfos[k].Rate == nodeResourceInfoMap[strategyInfos[k].Nodename].Rate
+//@             && strategyInfos[k].Count == deployStatusMap[strategyInfos[k].Nodename])
+//@        && (forall a, b :: 0 <= a && a < b && b < len(strategyInfos) ==> strategyInfos[a].Nodename != strategyInfos[b].Nodename)
+//@   assert[C01.call-all,C02] before call Deploy#1: forall n string :: n in nodeResourceInfoMap ==> exists k :: 0 <= k && k < len(strategyInfos) && strategyInfos[k].Nodename == n
+//@   loop 1:
+//@     modifies nothing
+//@     invariant arr(strategyInfos) == 0 || (fresh(strategyInfos) && allocated(strategyInfos))
+//@     invariant forall k :: 0 <= k && k < len(strategyInfos) ==> seen(strategyInfos[k].Nodename) && strategyInfos[k].Nodename in nodeResourceInfoMap
+//@             && strategyInfos[k].Capacity == nodeResourceInfoMap[strategyInfos[k].Nodename].Capacity
+//@             && strategyInfos[k].Usage == nodeResourceInfoMap[strategyInfos[k].Nodename].Usage
+//@             && strategyInfos[k].Rate == nodeResourceInfoMap[strategyInfos[k].Nodename].Rate
+//@             && strategyInfos[k].Count == deployStatusMap[strategyInfos[k].Nodename]
+//@     invariant forall a, b :: 0 <= a && a < b && b < len(strategyInfos) ==> strategyInfos[a].Nodename != strategyInfos[b].Nodename
+//@     invariant forall n string :: seen(n) ==> exists k :: 0 <= k && k < len(strategyInfos) && strategyInfos[k].Nodename == n
